@@ -25,6 +25,9 @@ RULE = ("C: generated fragment programs over host chains of 2-3 contexts holding
 TRUSTED = ["harness/gen_mutations.py: the AST scanner and its provenance classification (fail-closed: unknown = not ok); "
            "ENGINE_PRIVATE allow-list entries carry their reason in that file",
            "Model/Eval.v reference interpreter (tied by the C04/C09 correspondence)",
+           "Model/Convert.v and Model/ConvertId.v (conversion model with object identities; C09_input_frozen, "
+           "C09_result_not_aliased, C09_dollar_not_aliased) are tied to utils.convert_input_data / convert_output_data by the "
+           "C10 correspondence (identity cases `icase`); here the aliasing clause is additionally observed by the sweep",
            "deep snapshot/compare routines of this module"]
 ASSUMPTIONS = ["payload helper code outside the registered payload functions (e.g. methods of OrderingIterable) is covered by the "
                "sweep only, not by the scanner",
